@@ -9,6 +9,7 @@ import (
 	"path/filepath"
 	"strings"
 	"sync"
+	"syscall"
 	"testing"
 	"time"
 
@@ -215,6 +216,9 @@ func genC16C(t *rapid.T) C16CCase {
 	n := rapid.IntRange(1, 9).Draw(t, "nops")
 	for i := 0; i < n; i++ {
 		op := C16COp{Op: rapid.SampledFrom([]string{"init", "init", "op", "op", "op", "close"}).Draw(t, "op")}
+		if c.Kind == 2 && rapid.IntRange(0, 9).Draw(t, "childdies") == 0 {
+			op.Op = "childdies" // the server process is killed behind the client's back (and reaped by its watcher)
+		}
 		switch op.Op {
 		case "init":
 			op.Init = rapid.SampledFrom([]string{"ok", "ok", "transport-error", "rpc-error", "malformed", "notify-fails"}).Draw(t, "init")
@@ -487,6 +491,18 @@ func execC16C(c C16CCase) *Failure {
 					return f
 				}
 			}
+		case "childdies":
+			if stdioClient == nil || !inited || dead {
+				continue
+			}
+			if pid := stdioClient.GetProcessID(); pid > 0 {
+				syscall.Kill(pid, syscall.SIGKILL)
+				for k := 0; k < 500 && syscall.Kill(pid, 0) == nil; k++ {
+					time.Sleep(2 * time.Millisecond)
+				}
+				time.Sleep(20 * time.Millisecond)
+			}
+			dead = true // calls fail from now on, however: not judged here (C08); the client still counts as initialized until Close
 		case "close":
 			if err := client.Close(); err != nil && !dead {
 				// Close errors are not part of this property (C07 / C08)
